@@ -5,6 +5,7 @@
 package witness
 
 import (
+	"fmt"
 	"sync"
 	"testing"
 	"time"
@@ -387,45 +388,43 @@ func TestWitness_C20_NextAfterClose(t *testing.T) {
 	}
 }
 
-// C20: after a Next that did not yield an entity - because the walk is over or because it panicked
-// inside the archetype walk - the query has no current table any more: Entity() panics in the
-// default build exactly as it does with ark_debug (after a Next that panicked mid-walk it used to
-// return the last entity of the previous table in the default build only). The unsafe query below
-// names a relation target for a component one of the archetypes lacks; until 69d7fda that made Next
-// panic mid-walk, since then such an archetype matches nothing and Next just finishes the query.
-// The witness accepts both and pins what follows.
+// C20: after a Next that did not yield an entity the query has no current table any more: Entity() panics
+// in the default build exactly as it does with ark_debug (after a Next that panicked in the middle of the
+// archetype walk it used to return the last entity of the previous table in the default build only). The
+// walk can no longer be made to panic through the public API - the query that did it (an ID-based query
+// with a relation on a component outside its filter) first stopped panicking (69d7fda) and is now rejected
+// when it is created - so the witness pins the remaining observable behaviour: after exhaustion and after
+// Close, Entity panics in all four builds, Next does not yield, the world is unlocked.
 func TestWitness_C20_EntityAfterFailedNext(t *testing.T) {
 	w := ecs.NewWorld(1, 1)
-	idA := ecs.ComponentID[compA](w)
 	idR := ecs.ComponentID[rel1](w)
 	idS := ecs.ComponentID[rel2](w)
-	_ = idA
 	u := w.Unsafe()
 	a := w.NewEntity()
 	b := w.NewEntity()
-	u.NewEntityRel([]ecs.ID{idR}, ecs.RelID(idR, a))
+	c := u.NewEntityRel([]ecs.ID{idR}, ecs.RelID(idR, a))
 	u.NewEntityRel([]ecs.ID{idS}, ecs.RelID(idS, a))
-	q := ecs.NewUnsafeFilter(w).Query(ecs.RelID(idR, b))
-	if !q.Next() || q.Entity() != a {
-		t.Fatal("expected the first plain entity")
+	mustPanic(t, "query with a relation on a component outside its filter", func() { ecs.NewUnsafeFilter(w).Query(ecs.RelID(idR, b)) })
+	if w.IsLocked() {
+		t.Fatal("rejected query left the world locked")
 	}
-	if !q.Next() || q.Entity() != b {
-		t.Fatal("expected the second plain entity")
+	q := ecs.NewUnsafeFilter(w, idR).Query(ecs.RelID(idR, a))
+	if !q.Next() || q.Entity() != c {
+		t.Fatal("expected the child of a")
 	}
-	// archetype {R}: no table for target b; archetype {S}: the relation names a component it lacks
-	more := false
+	more := true
 	func() {
 		defer func() { _ = recover() }()
 		more = q.Next()
 	}()
 	if more {
-		t.Fatalf("Next yields %v, which has no relation (R, %v)", q.Entity(), b)
+		t.Fatalf("Next yields %v after the only match", q.Entity())
 	}
-	mustPanic(t, "Entity after the failed or final Next", func() { _ = q.Entity() })
+	mustPanic(t, "Entity after the final Next", func() { _ = q.Entity() })
 	func() {
 		defer func() { _ = recover() }()
 		if q.Next() {
-			t.Fatal("Next after the failed or final Next yields an entity")
+			t.Fatal("Next after the final Next yields an entity")
 		}
 	}()
 	if w.IsLocked() {
@@ -633,10 +632,13 @@ func TestWitness_C16_ResetAfterRejectedCreation(t *testing.T) {
 }
 
 // C16 (and C03): a query that names a relation target for a component its filter does not require
-// gives the same answer in a world that was used and Reset and in a brand-new world. Before the
-// repair the answer depended on the archetypes an earlier history had left behind: an archetype
-// {A, R2} (tables freed by Reset) matched the filter {A}, had relations, did not have R1, and
-// GetTables / Matches indexed with the missing component and panicked, leaving the world locked.
+// has the same outcome in a world that was used and Reset and in a brand-new world. History of this
+// witness: originally the call panicked (index -1 / nil column) as soon as the walk reached a relation
+// archetype lacking the component - which depended on the archetypes an earlier history had left behind
+// (repaired by 69d7fda: no match instead of a panic); it then still listed entities that do not have the
+// relation (all entities of relation-free archetypes), so UnsafeFilter.Query now validates its relation
+// arguments like the generic filters: the call is rejected when the query is created, in both worlds,
+// and takes no lock bit.
 func TestWitness_C16_QueryRelationOnForeignComponent(t *testing.T) {
 	used := ecs.NewWorld(2, 1)
 	idA := ecs.ComponentID[compA](used)
@@ -649,41 +651,51 @@ func TestWitness_C16_QueryRelationOnForeignComponent(t *testing.T) {
 	ecs.ComponentID[compA](fresh)
 	ecs.ComponentID[rel1](fresh)
 	ecs.ComponentID[rel2](fresh)
-	var counts [2]int
-	var lists [2][]ecs.Entity
+	var outcome [2]string
 	for i, w := range []*ecs.World{used, fresh} {
 		u := w.Unsafe()
 		x := w.NewEntity()
 		y := w.NewEntity()
+		plain := u.NewEntity(idA)
 		u.NewEntityRel([]ecs.ID{idA, idR1}, ecs.RelID(idR1, x))
 		u.NewEntityRel([]ecs.ID{idA, idR1}, ecs.RelID(idR1, y))
 		u.NewEntityRel([]ecs.ID{idA, idR2}, ecs.RelID(idR2, x)) // has A, has relations, lacks R1
-		mustNotPanic(t, "query with a relation on a component outside the filter", func() {
-			q := ecs.NewUnsafeFilter(w, idA).Query(ecs.RelID(idR1, x))
-			counts[i] = q.Count()
+		func() {
+			defer func() {
+				if r := recover(); r != nil {
+					outcome[i] = "rejected"
+				}
+			}()
+			q := ecs.NewUnsafeFilter(w, idA).Query(ecs.RelID(idR1, x)) // R1 is not required by the filter
+			n := q.Count()
+			var list []ecs.Entity
 			for q.Next() {
-				lists[i] = append(lists[i], q.Entity())
+				list = append(list, q.Entity())
 			}
-		})
+			outcome[i] = fmt.Sprint(n, list)
+			for _, e := range list {
+				if e == plain || !u.Has(e, idR1) || u.GetRelation(e, idR1) != x {
+					t.Fatalf("world %d: the query for (R1, %v) lists %v, which does not have that relation", i, x, e)
+				}
+			}
+		}()
 		if w.IsLocked() {
-			t.Fatalf("world %d left locked", i)
+			t.Fatalf("world %d left locked (outcome %s)", i, outcome[i])
 		}
-		if counts[i] != len(lists[i]) {
-			t.Fatalf("world %d: Count %d, iteration %d", i, counts[i], len(lists[i]))
+		// the same relation on a filter that requires R1 works and lists exactly the one child of x
+		q := ecs.NewUnsafeFilter(w, idA, idR1).Query(ecs.RelID(idR1, x))
+		if q.Count() != 1 {
+			t.Fatalf("world %d: UnsafeFilter(A, R1).Query(R1 -> x) counts %d, want 1", i, q.Count())
 		}
-		for _, e := range lists[i] {
-			if !u.Has(e, idR1) || u.GetRelation(e, idR1) != x {
-				t.Fatalf("world %d: query for (R1, %v) lists %v", i, x, e)
-			}
+		q.Close()
+		// a relation given for a plain component is rejected, too
+		mustPanic(t, "relation target for a plain component", func() { ecs.NewUnsafeFilter(w, idA).Query(ecs.RelID(idA, x)) })
+		if w.IsLocked() {
+			t.Fatalf("world %d left locked by a rejected query", i)
 		}
 	}
-	if counts[0] != counts[1] || counts[0] != 1 {
-		t.Fatalf("reset world counts %d, new world counts %d, want 1 and 1", counts[0], counts[1])
-	}
-	for k := range lists[0] {
-		if lists[0][k] != lists[1][k] {
-			t.Fatalf("reset world lists %v, new world lists %v", lists[0], lists[1])
-		}
+	if outcome[0] != outcome[1] {
+		t.Fatalf("reset world: %s, new world: %s", outcome[0], outcome[1])
 	}
 }
 
